@@ -1,5 +1,7 @@
 //! Verification MODEL of `smallvec::SmallVec` for the uses fn_graph makes of it
-//! (`TypeIds = SmallVec<[TypeId; 8]>`: `new`, `push`, `iter`, `len`).
+//! (`TypeIds = SmallVec<[TypeId; 8]>`: `new`, `push`, `iter`, `len`, `get`, `first`,
+//! `last`, `contains`, indexing; no slice deref - code that needs one does not
+//! compile against the model and the check reports that as inconclusive).
 //!
 //! The real type keeps its items in a `union` of inline and heap storage and is
 //! read through slices at symbolic offsets, which costs CBMC tens of millions of
@@ -64,6 +66,54 @@ impl<A: Array> SmallVec<A> {
     pub fn iter(&self) -> Iter<'_, A> {
         Iter { v: self, i: 0 }
     }
+    pub fn get(&self, index: usize) -> Option<&A::Item> {
+        let mut r = None;
+        let mut i = 0;
+        while i < CAP {
+            if i == index {
+                r = self.slots[i].as_ref();
+            }
+            i += 1;
+        }
+        r
+    }
+    pub fn first(&self) -> Option<&A::Item> {
+        self.slots[0].as_ref()
+    }
+    pub fn last(&self) -> Option<&A::Item> {
+        let mut r = None;
+        let mut i = 0;
+        while i < CAP {
+            if self.slots[i].is_some() {
+                r = self.slots[i].as_ref();
+            }
+            i += 1;
+        }
+        r
+    }
+    pub fn contains(&self, x: &A::Item) -> bool
+    where
+        A::Item: PartialEq,
+    {
+        let mut r = false;
+        let mut i = 0;
+        while i < CAP {
+            if let Some(y) = self.slots[i].as_ref() {
+                if y == x {
+                    r = true;
+                }
+            }
+            i += 1;
+        }
+        r
+    }
+    pub fn clear(&mut self) {
+        let mut i = 0;
+        while i < CAP {
+            self.slots[i] = None;
+            i += 1;
+        }
+    }
 }
 impl<A: Array> Default for SmallVec<A> {
     fn default() -> Self {
@@ -73,6 +123,11 @@ impl<A: Array> Default for SmallVec<A> {
 pub struct Iter<'a, A: Array> {
     v: &'a SmallVec<A>,
     i: usize,
+}
+impl<'a, A: Array> Clone for Iter<'a, A> {
+    fn clone(&self) -> Self {
+        Iter { v: self.v, i: self.i }
+    }
 }
 impl<'a, A: Array> Iterator for Iter<'a, A> {
     type Item = &'a A::Item;
@@ -90,6 +145,12 @@ impl<'a, A: Array> Iterator for Iter<'a, A> {
             self.i = CAP;
         }
         r
+    }
+}
+impl<A: Array> core::ops::Index<usize> for SmallVec<A> {
+    type Output = A::Item;
+    fn index(&self, index: usize) -> &A::Item {
+        self.get(index).expect("index out of bounds")
     }
 }
 impl<'a, A: Array> IntoIterator for &'a SmallVec<A> {
